@@ -84,39 +84,84 @@ def loc_prov(fx, sym_or_render, depth=0):
 
 
 REPLAY_OWN_LOCATION = {
-    "<de::YamlDeserializer as serde::Deserializer>::deserialize_map::MA::deserialize_recorded_key": "a recorded key is replayed where it was written: its own location is its use-site",
-    "<de::YamlDeserializer as serde::Deserializer>::deserialize_enum": "the captured payload of a variant is replayed in place",
     "<de::YamlDeserializer as serde::Deserializer>::deserialize_enum::VA::bare_variant_payload": "synthetic payload of a bare variant name",
+}
+
+
+UNKNOWN_USE_SITE_OK = {
+    "<<de::YamlDeserializer as serde::Deserializer>::deserialize_map::MA as serde::de::MapAccess>::next_key_seed": "the buffered path replays a key of a queued entry, whose recorded use-site belongs to the entry's value (merge-derived entries); the key is replayed in place",
 }
 
 
 def rule_replay_reference_threaded(ctx, fx, config, prop="C16"):
     """A replay source over captured events answers `reference_location()` with the events' own (definition-site) positions unless
     it is given the use-site.  Every function that *has* a use-site — a `Location` parameter named `…reference…` — and builds a
-    replay source builds it with that parameter; sites that build one without a reference are a reviewed table of replays in
-    place.  (The nested-merge branch of the collector asks the source for the use-site of an inner `<<`.)"""
+    replay source builds it with that parameter; a node captured and replayed where it is used is built with `at_use_site`,
+    whose argument is a `reference_location()` read (directly, or through a parameter every caller fills with one); sites that
+    build a source without any reference are a reviewed table of replays in place."""
     n = 0
+    HELPER = "de::ReplayEvents::at_use_site"
+
+    def is_use_site_read(f, a, depth=1):
+        r = render(a)
+        if "reference_location(" in r:
+            return True, None
+        if a[0] == "arg" and depth > 0:
+            # a parameter: every caller must fill it with a use-site read (or is a reviewed in-place replay)
+            idx = a[1]
+            bad = []
+            sites = 0
+            n_unknown = {}
+            for g in fx.fns.values():
+                for gb, gt in g.calls():
+                    if fx.local_callee(gt) is f and len(gt["args"]) >= idx:
+                        sites += 1
+                        with g.deep():
+                            ga = g.sym_operand(gt["args"][idx - 1])
+                        okk, _ = is_use_site_read(g, ga, depth - 1)
+                        unknown = "UNKNOWN" in render(ga)
+                        if unknown and g.npath in UNKNOWN_USE_SITE_OK:
+                            n_unknown[g.npath] = n_unknown.get(g.npath, 0) + 1
+                            if n_unknown[g.npath] > 1:  # one reviewed site per listed function
+                                bad.append("%s passes UNKNOWN at a second site" % g.name)
+                        elif not okk:
+                            bad.append("%s passes `%s`" % (g.name, render(ga)[:40]))
+            return (sites > 0 and not bad), bad
+        return False, None
     for f in sorted(fx.fns.values(), key=lambda g: g.npath):
         for b, t in f.calls():
             c = fx.callee(t)
-            if "de::ReplayEvents" not in c or not (c.endswith("::new") or c.endswith("::with_reference")):
+            if "de::ReplayEvents" not in c or not (c.endswith("::new") or c.endswith("::with_reference") or c.endswith("::at_use_site")):
                 continue
             n += 1
             ctx.saw(f)
+            key = "%s:USE-SITE:replay-built-with-use-site:%s" % (prop, f.name)
             refs = [f.local_name(i) for i in range(1, f.nargs + 1) if "Location" in f.local_ty(i) and "reference" in (f.local_name(i) or "")]
-            if c.endswith("::with_reference"):
+            if f.npath == HELPER:
+                # the helper itself: the reference it hands on is its own parameter; the plain source is its in-place branch
+                if c.endswith("::with_reference"):
+                    a = f.sym_operand(t["args"][1])
+                    ctx.check(a[0] == "arg", "USE-SITE", key + ":with_reference", "at_use_site hands its use-site on", "at_use_site builds the source with `%s` instead of its use-site" % render(a)[:40], config, ctx.where(f, b))
+                continue
+            if c.endswith("::at_use_site"):
+                with f.deep():
+                    a = f.sym_operand(t["args"][1])
+                okk, why = is_use_site_read(f, a)
+                ctx.check(okk, "USE-SITE", key, "the node is replayed with the use-site read before it was consumed",
+                          "%s replays a captured node with `%s`, which is not a use-site read%s" % (f.name, render(a)[:50], (": " + "; ".join(why)) if why else ""), config, ctx.where(f, b))
+            elif c.endswith("::with_reference"):
                 with f.deep():
                     a = f.sym_operand(t["args"][1])
                 if refs:
                     ok = a[0] == "arg" and a[2] in refs
-                    ctx.check(ok, "USE-SITE", "%s:USE-SITE:replay-built-with-use-site:%s" % (prop, f.name), "the replay source is given the function's use-site parameter (%s)" % refs,
+                    ctx.check(ok, "USE-SITE", key, "the replay source is given the function's use-site parameter (%s)" % refs,
                               "%s builds its replay source with `%s` instead of its use-site parameter %s" % (f.name, render(a)[:60], refs), config, ctx.where(f, b))
                 else:
-                    ctx.ok("USE-SITE", "%s:USE-SITE:replay-built-with-use-site:%s" % (prop, f.name), "the replay source is given a recorded use-site (%s)" % render(a)[:60], config, ctx.where(f, b))
+                    ctx.ok("USE-SITE", key, "the replay source is given a recorded use-site (%s)" % render(a)[:60], config, ctx.where(f, b))
             else:
                 ok = not refs and f.npath in REPLAY_OWN_LOCATION
-                ctx.check(ok, "USE-SITE", "%s:USE-SITE:replay-built-with-use-site:%s" % (prop, f.name), "replay in place (%s)" % REPLAY_OWN_LOCATION.get(f.npath, ""),
-                          "%s builds a replay source without a use-site%s: `reference_location()` of that source answers with definition-site positions, so the use-site of a value that comes from a nested merge inside it is the anchored mapping's own position" % (f.name, (" although it receives one (%s)" % refs) if refs else " and is not in the reviewed table of in-place replays"), config, ctx.where(f, b))
+                ctx.check(ok, "USE-SITE", key, "replay in place (%s)" % REPLAY_OWN_LOCATION.get(f.npath, ""),
+                          "%s builds a replay source without a use-site%s: `reference_location()` of that source answers with definition-site positions, so a value reached through an alias (or a nested merge inside it) reports the anchored node's own position as its use-site" % (f.name, (" although it receives one (%s)" % refs) if refs else " and is not in the reviewed table of in-place replays"), config, ctx.where(f, b))
     ctx.floor("USE-SITE.replay-constructions", n, 6, config)
 
 
